@@ -1,0 +1,317 @@
+//! Verification seams. Compiled only with `--cfg lace_verif`; inert unless a harness arms the
+//! simulator on the *current thread* with [`arm`]. With the cfg off this file is not part of the
+//! crate at all.
+//!
+//! What lives here: the thread-local simulated environment (input byte stream, key device,
+//! tick budget), the event log the run loop and the debugger write to, and plain-data views of
+//! the machine and the debugger for the harness to read.
+
+use std::cell::RefCell;
+use std::collections::VecDeque;
+
+pub use crate::term::Key;
+
+/// Payload of the typed unwind that replaces `std::process::exit` while armed.
+#[derive(Debug, Clone, Copy, PartialEq, Eq)]
+pub struct SimExit(pub i32);
+
+/// Payload of the typed unwind raised by the simulator itself (never by lace code).
+#[derive(Debug, Clone, Copy, PartialEq, Eq)]
+pub enum SimStop {
+    /// Tick budget exhausted.
+    OutOfFuel,
+    /// More than `max_idle_ticks` consecutive run-loop iterations without an executed
+    /// instruction or a consumed command.
+    Spin,
+    /// The simulated terminal has no more keys (the user walked away).
+    KeysExhausted,
+}
+
+/// Which command stream `Stream::new` builds while armed.
+#[derive(Debug, Clone, PartialEq)]
+pub enum Transport {
+    /// Piped standard input, served from `Sim::stdin`.
+    Stdin,
+    /// Interactive terminal with the given pre-existing history, served from `Sim::keys`.
+    Terminal(Vec<String>),
+}
+
+/// Copy of the architectural state (without memory).
+#[derive(Debug, Clone, Copy, PartialEq, Eq)]
+pub struct Regs {
+    pub reg: [u16; 8],
+    pub pc: u16,
+    /// Condition code as its 3-bit NZP value (0 = none set).
+    pub cc: u8,
+    pub orig: u16,
+}
+
+/// Debugger control state as plain data.
+#[derive(Debug, Clone, Copy, PartialEq, Eq)]
+pub enum StatusView {
+    WaitForAction,
+    StepOver,
+    StepInto,
+    Continue,
+    Finish,
+}
+
+/// Everything observable at a pause (top of `Debugger::run_command`).
+#[derive(Debug, Clone, PartialEq)]
+pub struct Pause {
+    pub tick: u64,
+    /// Number of instructions executed (`Exec` events) before this pause.
+    pub execs_before: u64,
+    pub regs: Regs,
+    /// Words that differ from the baseline registered with [`set_baseline`]: (address, value).
+    pub mem_diff: Vec<(u16, u16)>,
+    /// The debugger's saved initial state: registers, and its memory diff against the baseline.
+    pub init_regs: Regs,
+    pub init_mem_diff: Vec<(u16, u16)>,
+    /// (address, is_predefined) in list order.
+    pub breakpoints: Vec<(u16, bool)>,
+    pub current_breakpoint: Option<u16>,
+    pub instruction_count: u32,
+}
+
+#[derive(Debug, Clone, PartialEq)]
+pub enum Event {
+    /// An instruction is about to be executed by the run loop. `pc` is its address.
+    Exec { pc: u16, instr: u16 },
+    Pause(Box<Pause>),
+    /// A command line was rejected by the command parser (its `Display` text).
+    CmdError(String),
+    /// A command was accepted (its `Debug` text); end of input shows as `Quit`.
+    Cmd(String),
+}
+
+pub struct Sim {
+    /// Bytes of the simulated standard input; end of vector = end of file.
+    pub stdin: Vec<u8>,
+    pub stdin_pos: usize,
+    /// Number of read calls served (including the ones that returned end of file).
+    pub stdin_reads: u64,
+    /// `None`: leave `Stream::new` alone (real stdin / real terminal detection).
+    pub transport: Option<Transport>,
+    pub keys: VecDeque<Key>,
+    pub keys_read: u64,
+
+    /// Remaining run-loop iterations.
+    pub fuel: u64,
+    pub ticks: u64,
+    pub execs: u64,
+    pub idle_ticks: u64,
+    pub max_idle_ticks: u64,
+    pub max_idle_seen: u64,
+
+    /// Record `Exec` events (they are always counted).
+    pub log_exec: bool,
+    pub events: Vec<Event>,
+    pub baseline: Option<Box<[u16; crate::runtime::MEMORY_MAX]>>,
+}
+
+impl Default for Sim {
+    fn default() -> Self {
+        Self {
+            stdin: Vec::new(),
+            stdin_pos: 0,
+            stdin_reads: 0,
+            transport: Some(Transport::Stdin),
+            keys: VecDeque::new(),
+            keys_read: 0,
+            fuel: u64::MAX,
+            ticks: 0,
+            execs: 0,
+            idle_ticks: 0,
+            max_idle_ticks: u64::MAX,
+            max_idle_seen: 0,
+            log_exec: true,
+            events: Vec::new(),
+            baseline: None,
+        }
+    }
+}
+
+thread_local! {
+    static SIM: RefCell<Option<Sim>> = const { RefCell::new(None) };
+}
+
+/// Arm the simulator on this thread.
+pub fn arm(sim: Sim) {
+    SIM.with(|cell| *cell.borrow_mut() = Some(sim));
+}
+
+/// Disarm and hand the simulator (with its event log and counters) back.
+pub fn disarm() -> Option<Sim> {
+    SIM.with(|cell| cell.borrow_mut().take())
+}
+
+pub fn is_armed() -> bool {
+    SIM.with(|cell| cell.borrow().is_some())
+}
+
+/// Access the armed simulator. Returns `None` if not armed.
+pub fn with<R>(f: impl FnOnce(&mut Sim) -> R) -> Option<R> {
+    SIM.with(|cell| cell.borrow_mut().as_mut().map(f))
+}
+
+/// Remember the memory image all later pause snapshots are diffed against.
+pub fn set_baseline(mem: &[u16; crate::runtime::MEMORY_MAX]) {
+    with(|sim| sim.baseline = Some(Box::new(*mem)));
+}
+
+fn unwind<T: Send + 'static>(payload: T) -> ! {
+    // `resume_unwind` does not run the panic hook: nothing is printed.
+    std::panic::resume_unwind(Box::new(payload))
+}
+
+// ---------------------------------------------------------------------------------------------
+// Call sites in lace
+// ---------------------------------------------------------------------------------------------
+
+/// In front of every `std::process::exit(code)`.
+pub fn exit(code: i32) {
+    if is_armed() {
+        unwind(SimExit(code));
+    }
+}
+
+/// Top of the run loop.
+pub fn tick() {
+    let stop = with(|sim| {
+        sim.ticks += 1;
+        sim.idle_ticks += 1;
+        if sim.idle_ticks > sim.max_idle_seen {
+            sim.max_idle_seen = sim.idle_ticks;
+        }
+        if sim.idle_ticks > sim.max_idle_ticks {
+            return Some(SimStop::Spin);
+        }
+        if sim.fuel == 0 {
+            return Some(SimStop::OutOfFuel);
+        }
+        sim.fuel -= 1;
+        None
+    })
+    .flatten();
+    if let Some(stop) = stop {
+        unwind(stop);
+    }
+}
+
+/// In front of `state.execute(instr)` in the run loop.
+pub fn on_execute(pc: u16, instr: u16) {
+    with(|sim| {
+        sim.execs += 1;
+        sim.idle_ticks = 0;
+        if sim.log_exec {
+            sim.events.push(Event::Exec { pc, instr });
+        }
+    });
+}
+
+/// After a command has been read and parsed in `Debugger::run_command`.
+pub fn on_command(command: &dyn std::fmt::Debug) {
+    with(|sim| {
+        sim.idle_ticks = 0;
+        sim.events.push(Event::Cmd(format!("{:?}", command)));
+    });
+}
+
+/// Inside the error callback of `Command::read_from`.
+pub fn on_command_error(error: &dyn std::fmt::Display) {
+    with(|sim| sim.events.push(Event::CmdError(format!("{}", error))));
+}
+
+/// Top of `Debugger::run_command`.
+pub(crate) fn on_pause(state: &crate::runtime::RunState, debugger: &crate::debugger::Debugger) {
+    with(|sim| {
+        let Some(baseline) = sim.baseline.as_deref() else {
+            return;
+        };
+        let initial = debugger.verif_initial_state();
+        let pause = Pause {
+            tick: sim.ticks,
+            execs_before: sim.execs,
+            regs: state.verif_regs(),
+            mem_diff: diff_mem(baseline, state.verif_mem()),
+            init_regs: initial.verif_regs(),
+            init_mem_diff: diff_mem(baseline, initial.verif_mem()),
+            breakpoints: debugger.verif_breakpoints(),
+            current_breakpoint: debugger.verif_current_breakpoint(),
+            instruction_count: debugger.verif_instruction_count(),
+        };
+        sim.events.push(Event::Pause(Box::new(pause)));
+    });
+}
+
+pub fn diff_mem(
+    baseline: &[u16; crate::runtime::MEMORY_MAX],
+    mem: &[u16; crate::runtime::MEMORY_MAX],
+) -> Vec<(u16, u16)> {
+    let mut diff = Vec::new();
+    if baseline[..] == mem[..] {
+        return diff;
+    }
+    for (addr, (a, b)) in baseline.iter().zip(mem.iter()).enumerate() {
+        if a != b {
+            diff.push((addr as u16, *b));
+        }
+    }
+    diff
+}
+
+/// One `read` call on the simulated standard input. `None`: not armed, use the real one.
+pub fn stdin_read(buf: &mut [u8]) -> Option<usize> {
+    with(|sim| {
+        sim.stdin_reads += 1;
+        if buf.is_empty() || sim.stdin_pos >= sim.stdin.len() {
+            return 0;
+        }
+        // One byte per call, like an unbuffered pipe reader at its worst
+        buf[0] = sim.stdin[sim.stdin_pos];
+        sim.stdin_pos += 1;
+        1
+    })
+}
+
+/// `Some(true)` while the simulated terminal is the command/input device.
+pub fn terminal_armed() -> bool {
+    with(|sim| matches!(sim.transport, Some(Transport::Terminal(_)))).unwrap_or(false)
+}
+
+pub fn transport() -> Option<Transport> {
+    with(|sim| sim.transport.clone()).flatten()
+}
+
+/// Next key of the simulated terminal. `None`: not armed for keys, use crossterm.
+pub fn next_key() -> Option<Key> {
+    if !terminal_armed() {
+        return None;
+    }
+    let key = with(|sim| {
+        let key = sim.keys.pop_front();
+        if key.is_some() {
+            sim.keys_read += 1;
+        }
+        key
+    })
+    .flatten();
+    match key {
+        Some(key) => Some(key),
+        None => unwind(SimStop::KeysExhausted),
+    }
+}
+
+/// `std::io::Stdin` stand-in for `runtime::read_byte_stdin`: serves the simulated stream while
+/// armed, the real one otherwise.
+pub struct StdinSeam(pub std::io::Stdin);
+
+impl std::io::Read for StdinSeam {
+    fn read(&mut self, buf: &mut [u8]) -> std::io::Result<usize> {
+        match stdin_read(buf) {
+            Some(count) => Ok(count),
+            None => self.0.read(buf),
+        }
+    }
+}
